@@ -35,6 +35,10 @@ struct Prog {
     mode: String,
     templates: Vec<(String, String)>,
     ctx: serde_json::Value,
+    /// the program uses Rust callbacks that swallow the error of a nested evaluation: a limited
+    /// run may then dispatch instructions the unlimited run did not (the fallback path)
+    #[serde(default)]
+    swallow: bool,
 }
 
 #[derive(Default)]
@@ -48,6 +52,9 @@ struct Rec {
     count: usize,
     mismatch: bool,
     probes: Vec<(usize, Option<(u64, u64)>)>,
+    /// swallowed out-of-fuel errors after which the tank was not empty
+    sticky_bad: usize,
+    swallowed: usize,
 }
 
 thread_local! {
@@ -112,6 +119,56 @@ fn apply(state: &mut State, f: Value, x: Value) -> Result<Value, Error> {
     f.call(state, &[x])
 }
 
+fn root_is_out_of_fuel(e: &Error) -> bool {
+    let mut cur: &dyn std::error::Error = e;
+    while let Some(next) = cur.source() {
+        cur = next;
+    }
+    match cur.downcast_ref::<Error>() {
+        Some(me) => me.kind() == minijinja::ErrorKind::OutOfFuel,
+        None => false,
+    }
+}
+
+/// a Rust callback that recovers from the error of a nested evaluation
+fn swallow(state: &mut State, r: Result<String, Error>) -> String {
+    match r {
+        Ok(s) => s,
+        Err(e) => {
+            let lv = state.fuel_levels();
+            let oof = root_is_out_of_fuel(&e);
+            REC.with(|r| {
+                let mut r = r.borrow_mut();
+                r.swallowed += 1;
+                if oof && lv.map_or(true, |x| x.1 != 0) {
+                    r.sticky_bad += 1;
+                }
+                let c = r.count;
+                r.probes.push((c, lv));
+            });
+            "FALLBACK".to_string()
+        }
+    }
+}
+
+/// `{{ try_macro('m') }}`: `call_macro(..).unwrap_or(fallback)`
+fn try_macro(state: &mut State, name: String) -> String {
+    let r = state.call_macro(&name, &[]);
+    swallow(state, r)
+}
+
+/// `{{ try_block('a') }}`: `render_block(..).unwrap_or(fallback)`
+fn try_block(state: &mut State, name: String) -> String {
+    let r = state.render_block(&name);
+    swallow(state, r)
+}
+
+/// `{{ try_apply(m, x) }}`: `value.call(..)` with the error swallowed
+fn try_apply(state: &mut State, f: Value, x: Value) -> String {
+    let r = f.call(state, &[x]).map(|v| v.to_string());
+    swallow(state, r)
+}
+
 /// `{{ rblock('a') }}`: `State::render_block` from a Rust function
 fn rblock(state: &mut State, name: String) -> Result<Value, Error> {
     state.render_block(&name).map(Value::from)
@@ -136,6 +193,8 @@ struct RunOut {
     n: usize,
     mismatch: bool,
     probes: Vec<(usize, Option<(u64, u64)>)>,
+    sticky_bad: usize,
+    swallowed: usize,
 }
 
 fn build_env(prog: &Prog) -> Result<Environment<'static>, String> {
@@ -144,6 +203,9 @@ fn build_env(prog: &Prog) -> Result<Environment<'static>, String> {
     env.add_function("apply", apply);
     env.add_function("rblock", rblock);
     env.add_function("cmacro", cmacro);
+    env.add_function("try_macro", try_macro);
+    env.add_function("try_block", try_block);
+    env.add_function("try_apply", try_apply);
     if prog.mode == "template" {
         for (name, src) in &prog.templates {
             env.add_template_owned(name.clone(), src.clone())
@@ -160,6 +222,8 @@ fn run(env: &mut Environment<'static>, prog: &Prog, fuel: Option<u64>, collect: 
         r.collect = collect;
         r.count = 0;
         r.mismatch = false;
+        r.sticky_bad = 0;
+        r.swallowed = 0;
         r.probes.clear();
         if collect {
             r.trace.clear();
@@ -200,7 +264,7 @@ fn run(env: &mut Environment<'static>, prog: &Prog, fuel: Option<u64>, collect: 
     };
     REC.with(|r| {
         let r = r.borrow();
-        RunOut { outcome, levels, n: r.count, mismatch: r.mismatch, probes: r.probes.clone() }
+        RunOut { outcome, levels, n: r.count, mismatch: r.mismatch, probes: r.probes.clone(), sticky_bad: r.sticky_bad, swallowed: r.swallowed }
     })
 }
 
@@ -372,7 +436,7 @@ fn run_prog(prog: &Prog, thorough: bool) -> serde_json::Value {
             probes_pb = r.probes.iter().map(|(k, lv)| json!([k, lv.map(|x| x.0), lv.map(|x| x.1)])).collect();
         }
         runs.push(json!([b, tag(&r.outcome, &target), r.levels.map(|x| x.0), r.levels.map(|x| x.1),
-                         r.n, r.mismatch as u8, r.probes.len(), pbad, pmono as u8]));
+                         r.n, r.mismatch as u8, r.probes.len(), pbad, pmono as u8, r.swallowed, r.sticky_bad]));
     }
     res["runs"] = json!(runs);
     res["pb"] = json!(pb);
@@ -439,6 +503,7 @@ fn prog(id: &str, group: &str, k: i64, tpls: &[(&str, String)]) -> Prog {
         mode: "template".into(),
         templates: tpls.iter().map(|(n, s)| (n.to_string(), s.clone())).collect(),
         ctx: default_ctx(),
+        swallow: false,
     }
 }
 
@@ -580,6 +645,45 @@ fn edge_programs(v: &mut Vec<Prog>) {
     }
 }
 
+/// Rust callbacks that swallow the error of a nested evaluation (fallback value): running out of
+/// fuel inside must still end the render out of fuel
+fn swallow_programs(v: &mut Vec<Prog>) {
+    for k in 0..=3 {
+        let w = work(k);
+        let calls: Vec<(&str, &str, String)> = vec![
+            ("try_macro", "try_macro('m')", format!("{{% macro m() %}}n{w}{{{{ probe() }}}}{{% endmacro %}}")),
+            ("try_apply", "try_apply(m, 1)", format!("{{% macro m(x) %}}n{{{{ x }}}}{w}{{{{ probe() }}}}{{% endmacro %}}")),
+            ("try_block", "try_block('a')", format!("{{% block a %}}a{w}{{{{ probe() }}}}{{% endblock %}}|")),
+        ];
+        for (edge, e, def) in calls {
+            for (pos, p) in positions(e) {
+                let tails = [("tail-emit", "after{{ 1 }}{{ probe() }}"), ("tail-loop", "{% for i in range(3) %}{{ i }}{% endfor %}"), ("tail-raw", "after")];
+                for (tname, tail) in tails {
+                    let mut pr = prog(&format!("swallow:{}:{}-{}:{}", edge, pos, tname, k), &format!("swallow-{}-{}-{}", edge, pos, tname), k,
+                                      &[("main", format!("{def}{p}{tail}"))]);
+                    pr.swallow = true;
+                    v.push(pr);
+                }
+            }
+        }
+        // the swallowing callback inside a nested evaluation itself, and twice in a row
+        let extra = [
+            ("in-include", vec![("main", "x{% include 'inc' %}y{{ 1 }}".to_string()),
+                                ("inc", format!("{{% macro m() %}}n{w}{{% endmacro %}}[{{{{ try_macro('m') }}}}]{{{{ probe() }}}}"))]),
+            ("twice", vec![("main", format!("{{% macro m() %}}n{w}{{% endmacro %}}{{{{ try_macro('m') }}}}{{{{ try_macro('m') }}}}{{{{ try_macro('m')|upper }}}}z"))]),
+            ("in-super", vec![("main", "{% extends 'base' %}{% block a %}[{{ super()|upper }}]{% endblock %}".to_string()),
+                              ("base", format!("{{% macro m() %}}n{w}{{% endmacro %}}<{{% block a %}}{{{{ try_macro('m') }}}}A{{% endblock %}}>{{{{ 1 }}}}"))]),
+            ("nested-swallow", vec![("main", format!("{{% macro inner(x) %}}i{w}{{% endmacro %}}{{% macro m() %}}({{{{ try_apply(inner, 1) }}}}){{% endmacro %}}{{{{ try_macro('m') }}}}end{{{{ 1 }}}}"))]),
+        ];
+        for (name, tpls) in extra {
+            let t: Vec<(&str, String)> = tpls;
+            let mut pr = prog(&format!("swallow:misc:{}:{}", name, k), &format!("swallow-misc-{}", name), k, &t);
+            pr.swallow = true;
+            v.push(pr);
+        }
+    }
+}
+
 fn fixed_programs(thorough: bool) -> Vec<Prog> {
     let mut v = vec![];
     // A. straight-line
@@ -708,6 +812,7 @@ fn fixed_programs(thorough: bool) -> Vec<Prog> {
                 &[("main", "{% extends 'base' %}{% block a %}{% include 'inc' %}{{ super() }}{% endblock %}".to_string()),
                   ("base", base.to_string()), ("inc", "I{{ probe() }}".to_string())]));
     edge_programs(&mut v);
+    swallow_programs(&mut v);
     // G. renders that fail without fuel as well
     let failing = [
         "A{{ 1 }}{{ nofn() }}B", "{% for x in range(3) %}{{ x }}{% if x == 1 %}{{ 1 // 0 }}{% endif %}{% endfor %}",
@@ -853,7 +958,7 @@ fn random_program(rng: &mut Rng, idx: usize) -> Prog {
     let mut all = vec![("main".to_string(), main)];
     all.extend(tpls);
     all.extend(incs);
-    let mut p = Prog { id: format!("random:{}", idx), group: String::new(), k: 0, mode: "template".into(), templates: all, ctx: default_ctx() };
+    let mut p = Prog { id: format!("random:{}", idx), group: String::new(), k: 0, mode: "template".into(), templates: all, ctx: default_ctx(), swallow: false };
     p.ctx["n"] = json!(rng.below(4));
     p.ctx["c"] = json!(rng.chance(1, 2));
     p
